@@ -38,8 +38,13 @@ def _worker_target():
             import shutil
             os.makedirs(tdir, exist_ok=True)
             # only the dev profile's dependency artefacts are needed (check metadata, no codegen): a few MB
-            shutil.copytree(os.path.join(base, 'debug'), os.path.join(tdir, 'debug'), symlinks=True,
-                            ignore=shutil.ignore_patterns('incremental', 'examples', '*.d'))
+            # the member crate's own fingerprint / metadata are rebuilt by every extraction (and may be removed by a concurrent one while
+            # we copy): leave them out, and tolerate files that vanish under the copy - a cold file only costs a rebuild
+            try:
+                shutil.copytree(os.path.join(base, 'debug'), os.path.join(tdir, 'debug'), symlinks=True,
+                                ignore=shutil.ignore_patterns('incremental', 'examples', '*.d', 'desync-*', 'libdesync-*'))
+            except shutil.Error:
+                pass
         _tls.tdir = tdir
     return _tls.tdir
 
